@@ -1,4 +1,70 @@
-import FiddleModel.Model.Graph
+/-
+C17 — read-only and copy-returning APIs never modify their input.
+
+What a theorem can and cannot say here. The APIs of the list are imperative Python functions;
+the property is the *absence* of writes to the objects of the configuration passed in. In the
+heap model an API call has one of two effects on the heap of configuration objects:
+  * `readOnly`  — it allocates nothing that the caller can reach and writes nothing;
+  * `allocOnly` — it returns a new or copied configuration: new objects are appended, existing
+                  objects are not written.
+Which effect each entry point of fiddle has is NOT proved: it is checked by the correspondence
+run, which encodes the configuration before and after every call and compares it with
+`applyEffect` (i.e. with the unchanged heap). What is proved is that these two effects are
+sufficient for the property as stated — the configuration "unchanged in callables, arguments,
+tags and sharing structure": every object, and every path query from the configuration's
+objects, answers exactly as before, also after the caller goes on to edit the returned copy.
+The per-API models that exist (build: C02, traversals: C08, select: C15, ==: C06, copies: C07,
+list_tags: C14) are functions of the heap that return results, not heaps, so they have the
+`readOnly` effect by construction.
+-/
+import FiddleModel.Lemmas.CopyL
+
 namespace Fiddle
-theorem C17_placeholder : True := trivial
+
+inductive Effect | readOnly | allocOnly
+deriving DecidableEq, Repr
+
+/-- The heap after an API call with the given effect (`new` = the objects it allocated). -/
+def applyEffect (e : Effect) (h new : Heap) : Heap :=
+  match e with
+  | .readOnly => h
+  | .allocOnly => h ++ new
+
+/-- Every object of the input is unchanged: same kind, callable, arguments, tags. -/
+theorem C17_objects_unchanged (e : Effect) (h new : Heap) (i : Nat) (hi : i < h.length) :
+    (applyEffect e h new)[i]? = h[i]? := by
+  cases e with
+  | readOnly => rfl
+  | allocOnly => simp [applyEffect, List.getElem?_append_left hi]
+
+/-- Every path from the input leads to the same value as before (arguments and sharing
+    structure as observed through paths are unchanged). -/
+theorem C17_paths_unchanged (e : Effect) (h new : Heap) (wf : h.WellFormed) (i : Nat)
+    (hi : i < h.length) (p : Path) :
+    followPath (applyEffect e h new) (.ref i) p = followPath h (.ref i) p :=
+  followPath_agree h _ wf h.length (fun k hk => C17_objects_unchanged e h new k hk) p (.ref i)
+    (by intro k hk; cases hk; exact hi)
+
+/-- ... and this stays so whatever the caller then does to the objects the API returned. -/
+theorem C17_unchanged_after_editing_result (e : Effect) (h new h2 : Heap) (wf : h.WellFormed)
+    (hedit : ∀ k, k < h.length → h2[k]? = (applyEffect e h new)[k]?) (i : Nat) (hi : i < h.length)
+    (p : Path) : followPath h2 (.ref i) p = followPath h (.ref i) p :=
+  followPath_agree h h2 wf h.length
+    (fun k hk => (hedit k hk).trans (C17_objects_unchanged e h new k hk)) p (.ref i)
+    (by intro k hk; cases hk; exact hi)
+
+/-- A sequence of such calls has the same guarantee. -/
+theorem C17_sequences (calls : List (Effect × Heap)) (h : Heap) (i : Nat) (hi : i < h.length) :
+    (calls.foldl (fun h c => applyEffect c.1 h c.2) h)[i]? = h[i]? := by
+  induction calls generalizing h with
+  | nil => rfl
+  | cons c cs ih =>
+    simp only [List.foldl_cons]
+    have hlen : i < (applyEffect c.1 h c.2).length := by
+      cases c.1 <;> simp [applyEffect] <;> omega
+    rw [ih _ hlen, C17_objects_unchanged c.1 h c.2 i hi]
+
+example : ((applyEffect .allocOnly [{ kind := .list }] [{ kind := .dict }])[0]?).map (·.kind) =
+    some .list := by decide
+
 end Fiddle
